@@ -95,16 +95,28 @@ theorem startLoop_mem (i : Nat) (bs : List Blk) (k : Nat) :
           intro j hj
           simpa using h3 (j + 1) (by omega)
 
+/-- no second termination cause cancels the simulation task -/
+@[simp] theorem second_any_false (o : Option (Second × Nat)) :
+    (o.any fun x => x.1.cancelsSimtask) = false := by
+  cases o with
+  | none => rfl
+  | some x => cases x with | mk a b => cases a <;> rfl
+
 /-! ### `_run_tasks` -/
 
-theorem atCancel_k (l : Nat) (j : Job) : (Job.atCancel l j).k = j.k := by
+theorem cancelEnd_k (l T : Nat) (j : Job) : (Job.cancelEnd l T j).k = j.k := by
+  unfold Job.cancelEnd; split <;> rfl
+
+theorem atCancel_k (l T : Nat) (j : Job) : (Job.atCancel l T j).k = j.k := by
   unfold Job.atCancel; split
-  · split <;> rfl
-  · rfl
+  · split
+    · rfl
+    · exact cancelEnd_k l T j
+  · exact cancelEnd_k l T j
 
 /-- every job gets exactly one fate -/
-theorem awaitJobs_ks (limit : Option Nat) (now : Nat) (js : List Job) :
-    (awaitJobs limit now js).1.map (·.k) = js.map (·.k) := by
+theorem awaitJobs_ks (limit : Option Nat) (T now : Nat) (js : List Job) :
+    (awaitJobs limit T now js).1.map (·.k) = js.map (·.k) := by
   induction js generalizing now with
   | nil => simp [awaitJobs]
   | cons j js ih =>
@@ -132,9 +144,9 @@ theorem wake_le (j : Job) (now M : Nat) (hnow : now ≤ M) (hj : j.timeout ≤ M
     · simp; omega
 
 /-- without a cancellation the loop and every task end within the longest time-out -/
-theorem awaitJobs_bound (M : Nat) (now : Nat) (js : List Job) (hnow : now ≤ M)
+theorem awaitJobs_bound (M T : Nat) (now : Nat) (js : List Job) (hnow : now ≤ M)
     (h : ∀ j ∈ js, j.timeout ≤ M) :
-    (awaitJobs none now js).2.1 ≤ M ∧ ∀ e ∈ (awaitJobs none now js).1, e.time ≤ M := by
+    (awaitJobs none T now js).2.1 ≤ M ∧ ∀ e ∈ (awaitJobs none T now js).1, e.time ≤ M := by
   induction js generalizing now with
   | nil => simp [awaitJobs, hnow]
   | cons j js ih =>
@@ -161,16 +173,35 @@ theorem awaitJobs_bound (M : Nat) (now : Nat) (js : List Job) (hnow : now ≤ M)
       · exact hw
       · exact this.2 e he
 
+theorem runTasks_ks (limit : Option Nat) (js : List Job) :
+    (runTasks limit js).1.map (·.k) = (sortJobs js).map (·.k) := awaitJobs_ks ..
+
 theorem sortJobs_perm (js : List Job) : (sortJobs js).Perm js := List.mergeSort_perm ..
 theorem sortEnds_perm (l : List JobEnd) : (sortEnds l).Perm l := List.mergeSort_perm ..
 
 /-! ### synchronous set -/
 
+/-- the on_success event to another OutputFunc is one call of that block's function, or nothing -/
+theorem chain_cases (bs : List Blk) (k : Nat) :
+    chain bs k = [] ∨ ∃ j, (blk bs k).onSuccess = some j ∧ (blk bs j).kind = .outf ∧ chain bs k = [Ev.out j false] := by
+  unfold chain
+  cases h : (blk bs k).onSuccess with
+  | none => simp
+  | some j =>
+    by_cases hk : (blk bs j).kind = .outf
+    · exact .inr ⟨j, rfl, hk, by simp [hk]⟩
+    · simp [hk]
+
+theorem chain_evs (bs : List Blk) (k : Nat) :
+    stops (chain bs k) = [] ∧ starteds (chain bs k) = [] ∧ sabs (chain bs k) = [] ∧ saes (chain bs k) = [] := by
+  rcases chain_cases bs k with h | ⟨j, _, _, h⟩ <;> simp [h, stops, starteds, sabs, saes]
+
 theorem stopSync_evs (bs : List Blk) (s : CState) (k : Nat) :
     stops (stopSync bs s k).2 = [k] ∧ starteds (stopSync bs s k).2 = [] ∧
     sabs (stopSync bs s k).2 = [] ∧ saes (stopSync bs s k).2 = [] := by
+  have hc := chain_evs bs k
   unfold stopSync; simp only []
-  split <;> simp [stops, starteds, sabs, saes]
+  split <;> simp [stops, starteds, sabs, saes] <;> simp_all [stops, starteds, sabs, saes]
 
 theorem stopSyncAll_evs (bs : List Blk) (s : CState) (os : List Nat) :
     stops (stopSyncAll bs s os).2 = os ∧ starteds (stopSyncAll bs s os).2 = [] ∧
@@ -187,7 +218,7 @@ theorem stopSyncAll_evs (bs : List Blk) (s : CState) (os : List Nat) :
     output functions -/
 theorem stopSyncAll_mem (bs : List Blk) (s : CState) (os : List Nat) (e : Ev)
     (he : e ∈ (stopSyncAll bs s os).2) :
-    (∃ k, k ∈ os ∧ e = .stop k) ∨ (∃ k, k ∈ os ∧ e = .out k true) := by
+    (∃ k, k ∈ os ∧ e = .stop k) ∨ (∃ k b, e = .out k b) := by
   induction os generalizing s with
   | nil => simp [stopSyncAll] at he
   | cons k ks ih =>
@@ -197,15 +228,19 @@ theorem stopSyncAll_mem (bs : List Blk) (s : CState) (os : List Nat) (e : Ev)
     · unfold stopSync at he
       simp only [] at he
       split at he
-      · simp at he
-        rcases he with rfl | rfl
+      · simp only [List.cons_append, List.nil_append, List.mem_cons] at he
+        rcases he with rfl | rfl | he
         · exact .inl ⟨k, by simp, rfl⟩
-        · exact .inr ⟨k, by simp, rfl⟩
+        · exact .inr ⟨k, true, rfl⟩
+        · rcases chain_cases bs k with h | ⟨j, _, _, h⟩
+          · simp [h] at he
+          · simp only [h, List.mem_singleton] at he
+            exact .inr ⟨j, false, he⟩
       · simp at he
         exact .inl ⟨k, by simp, he⟩
-    · rcases ih _ he with ⟨j, hj, rfl⟩ | ⟨j, hj, rfl⟩
+    · rcases ih _ he with ⟨j, hj, rfl⟩ | ⟨j, b, rfl⟩
       · exact .inl ⟨j, by simp [hj], rfl⟩
-      · exact .inr ⟨j, by simp [hj], rfl⟩
+      · exact .inr ⟨j, b, rfl⟩
 
 /-! ### `_stop_sblocks` -/
 
@@ -232,7 +267,7 @@ def seg2 : List Ev := (oa.filter (outaDelivers bs inited)).map (Ev.out · true)
 def seg3 : List Ev := oa.flatMap fun k =>
     if immediate bs failed inited k then [Ev.sab k, Ev.sae k (stopJob bs failed inited k).fin]
     else [Ev.sab k]
-def ends : List JobEnd := (awaitJobs none 0 (sortJobs (oa.map (stopJob bs failed inited)))).1
+def ends : List JobEnd := (runTasks none (oa.map (stopJob bs failed inited))).1
 def seg4 : List Ev :=
   (sortEnds ((ends bs failed inited oa).filter fun e => !immediate bs failed inited e.k)).map
     fun e => Ev.sae e.k (seenRes bs e)
@@ -280,7 +315,7 @@ theorem seg4_evs : stops (seg4 bs failed inited oa) = [] ∧ starteds (seg4 bs f
   have h2 : ((ends bs failed inited oa).filter fun e => !immediate bs failed inited e.k).map (·.k) =
       ((ends bs failed inited oa).map (·.k)).filter fun k => !immediate bs failed inited k := by
     rw [List.filter_map]; rfl
-  rw [h2, ends, awaitJobs_ks]
+  rw [h2, ends, runTasks_ks]
   refine ((sortJobs_perm _).map _).filter _ |>.trans ?_
   simp [List.map_map, Function.comp_def, stopJob_k]
 
@@ -317,9 +352,10 @@ theorem stopSblocks_saes :
 theorem stopSblocks_dur (M : Nat) (h : ∀ k ∈ oa, (blk bs k).stopTimeout ≤ M) :
     (stopSblocks bs failed inited started timers0 oa os).dur ≤ M := by
   have : (stopSblocks bs failed inited started timers0 oa os).dur =
-      (awaitJobs none 0 (sortJobs (oa.map (stopJob bs failed inited)))).2.1 := rfl
+      (runTasks none (oa.map (stopJob bs failed inited))).2.1 := rfl
   rw [this]
-  refine (awaitJobs_bound M 0 _ (Nat.zero_le _) ?_).1
+  unfold runTasks
+  refine (awaitJobs_bound M _ 0 _ (Nat.zero_le _) ?_).1
   intro j hj
   rw [(sortJobs_perm _).mem_iff] at hj
   obtain ⟨k, hk, rfl⟩ := List.mem_map.1 hj
@@ -434,14 +470,43 @@ theorem stopSyncAll_timers (bs : List Blk) (s : CState) (os : List Nat) (x : Nat
 
 theorem plan_startEvs (c : Cfg) : (plan c).startEvs = (startLoop 0 c.blocks).1 := rfl
 theorem plan_started (c : Cfg) : (plan c).started = (startLoop 0 c.blocks).2.1 := rfl
+/-- the destination of the on_success event when it is another OutputFunc -/
+def chainK (bs : List Blk) (k : Nat) : List Nat :=
+  match (blk bs k).onSuccess with
+  | some j => if (blk bs j).kind == .outf then [j] else []
+  | none => []
+
+theorem chain_eq_map (bs : List Blk) (k : Nat) : chain bs k = (chainK bs k).map (Ev.out · false) := by
+  unfold chain chainK
+  cases (blk bs k).onSuccess with
+  | none => rfl
+  | some j => by_cases h : (blk bs j).kind = .outf <;> simp [h]
+
+theorem chainK_kind (bs : List Blk) (k j : Nat) (h : j ∈ chainK bs k) : (blk bs j).kind = .outf := by
+  unfold chainK at h
+  cases hs : (blk bs k).onSuccess with
+  | none => simp [hs] at h
+  | some i =>
+    by_cases hk : (blk bs i).kind = .outf
+    · simp [hs, hk] at h; subst h; exact hk
+    · simp [hs, hk] at h
+
+/-- the calls of output functions made by the running circuit: every one a call WITHOUT stop_data
+    of an OutputFunc block -/
 theorem plan_puts (c : Cfg) : ∃ ks : List Nat, (plan c).puts = ks.map (Ev.out · false) ∧
-    ∀ k ∈ ks, k ∈ (plan c).started ∧ (blk c.blocks k).kind = .outf := by
-  refine ⟨putBlocksOf c.blocks (plan c).started (plan c).phase, rfl, ?_⟩
-  intro k hk
-  unfold putBlocksOf at hk
-  split at hk
-  · simpa using hk
-  · simp at hk
+    ∀ k ∈ ks, (blk c.blocks k).kind = .outf := by
+  refine ⟨(putBlocksOf c.blocks (plan c).started (plan c).phase).flatMap fun k => k :: chainK c.blocks k, ?_, ?_⟩
+  · show (putBlocksOf c.blocks (plan c).started (plan c).phase).flatMap
+        (fun k => Ev.out k false :: chain c.blocks k) = _
+    simp only [List.map_flatMap, List.map_cons, chain_eq_map]
+  · intro k hk
+    simp only [List.mem_flatMap, List.mem_cons] at hk
+    obtain ⟨i, hi, rfl | hk⟩ := hk
+    · unfold putBlocksOf at hi
+      split at hi
+      · simp only [List.mem_filter, beq_iff_eq] at hi; exact hi.2
+      · simp at hi
+    · exact chainK_kind _ _ _ hk
 theorem plan_timers (c : Cfg) : ∃ pass1 pass2 ph, (plan c).timers =
     (armAll c.blocks
       { timers := initTimers c.blocks (plan c).started pass1 pass2, stopped := [], started := (plan c).started }
@@ -468,7 +533,7 @@ structure FinishSpec (c : Cfg) (p : Plan) (r : Result) : Prop where
 theorem finish_spec (c : Cfg) (p : Plan) (r : Result) (h : finish c p = some r) : FinishSpec c p r := by
   unfold finish at h
   -- the pending cancellation was consumed: the truncated clean-up cannot happen
-  simp only [consumePending, Bool.false_and, Bool.false_eq_true, if_false] at h
+  simp only [consumePending, second_any_false, Bool.or_false, Bool.false_and, Bool.false_eq_true, if_false] at h
   split at h
   · simp at h
   · next hp =>
@@ -492,27 +557,48 @@ inductive SameButCleanup : List Blk → List Blk → Prop
 
 /-! ### calls of the output functions -/
 
-theorem outsOf_stopSync_ne (bs : List Blk) (s : CState) (k j : Nat) (h : j ≠ k) :
+/-- no OutputFunc with stop_data sends its on_success event to block `k` -/
+def NoStopDataSender (bs : List Blk) (k : Nat) : Prop :=
+  ∀ j, (blk bs j).kind = .outf → (blk bs j).stopData = true → (blk bs j).onSuccess ≠ some k
+
+theorem outsOf_chain_ne (bs : List Blk) (k j : Nat) (h : (blk bs j).onSuccess ≠ some k) :
+    outsOf k (chain bs j) = [] := by
+  rcases chain_cases bs j with hc | ⟨i, hi, _, hc⟩
+  · simp [hc, outsOf]
+  · have : i ≠ k := fun e => h (e ▸ hi)
+    simp [hc, outsOf, this]
+
+theorem outsOf_stopSync_ne (bs : List Blk) (s : CState) (k j : Nat) (h : j ≠ k) (hno : NoStopDataSender bs k) :
     outsOf k (stopSync bs s j).2 = [] := by
   unfold stopSync; simp only []
-  split <;> simp [outsOf, h]
+  split
+  · next hc =>
+    simp only [Bool.and_eq_true, beq_iff_eq] at hc
+    rw [outsOf_append, outsOf_chain_ne bs k j (hno j hc.1 hc.2)]
+    simp [outsOf, h]
+  · simp [outsOf]
 
 theorem outsOf_stopSync_eq (bs : List Blk) (s : CState) (k : Nat)
-    (hf : (blk bs k).kind = .outf) (hsd : (blk bs k).stopData = true) :
+    (hf : (blk bs k).kind = .outf) (hsd : (blk bs k).stopData = true) (hno : NoStopDataSender bs k) :
     outsOf k (stopSync bs s k).2 = [true] := by
-  unfold stopSync; simp [outsOf, hf, hsd]
+  unfold stopSync
+  simp only [hf, hsd, beq_self_eq_true, Bool.and_self, if_true]
+  rw [outsOf_append, outsOf_chain_ne bs k k (hno k hf hsd)]
+  simp [outsOf]
 
-theorem outsOf_stopSyncAll_not_mem (bs : List Blk) (s : CState) (os : List Nat) (k : Nat) (h : k ∉ os) :
+theorem outsOf_stopSyncAll_not_mem (bs : List Blk) (s : CState) (os : List Nat) (k : Nat) (h : k ∉ os)
+    (hno : NoStopDataSender bs k) :
     outsOf k (stopSyncAll bs s os).2 = [] := by
   induction os generalizing s with
   | nil => simp [stopSyncAll, outsOf]
   | cons j js ih =>
     simp only [List.mem_cons, not_or] at h
     unfold stopSyncAll
-    simp [outsOf_stopSync_ne bs s k j (Ne.symm h.1), ih _ h.2]
+    simp [outsOf_stopSync_ne bs s k j (Ne.symm h.1) hno, ih _ h.2]
 
 theorem outsOf_stopSyncAll_mem (bs : List Blk) (s : CState) (os : List Nat) (k : Nat)
-    (hnd : os.Nodup) (h : k ∈ os) (hf : (blk bs k).kind = .outf) (hsd : (blk bs k).stopData = true) :
+    (hnd : os.Nodup) (h : k ∈ os) (hf : (blk bs k).kind = .outf) (hsd : (blk bs k).stopData = true)
+    (hno : NoStopDataSender bs k) :
     outsOf k (stopSyncAll bs s os).2 = [true] := by
   induction os generalizing s with
   | nil => simp at h
@@ -521,13 +607,13 @@ theorem outsOf_stopSyncAll_mem (bs : List Blk) (s : CState) (os : List Nat) (k :
     simp only [List.nodup_cons] at hnd
     by_cases hjk : j = k
     · subst hjk
-      simp [outsOf_stopSync_eq bs s j hf hsd, outsOf_stopSyncAll_not_mem bs _ js j hnd.1]
+      simp [outsOf_stopSync_eq bs s j hf hsd hno, outsOf_stopSyncAll_not_mem bs _ js j hnd.1 hno]
     · have hk : k ∈ js := by
         simp only [List.mem_cons] at h
         rcases h with h | h
         · exact absurd h.symm hjk
         · exact h
-      simp [outsOf_stopSync_ne bs s k j hjk, ih _ hnd.2 hk]
+      simp [outsOf_stopSync_ne bs s k j hjk hno, ih _ hnd.2 hk]
 
 theorem outsOf_puts (k : Nat) (ks : List Nat) : ∀ x ∈ outsOf k (ks.map (Ev.out · false)), x = false := by
   intro x hx
@@ -654,7 +740,7 @@ theorem same_partition_same_stops (c c' : Cfg) (r : Result) (h : runForever c = 
     simp only [setS, hst, hblk]
   have hfin : ∃ r', finish c' (plan c') = some r' := by
     unfold finish
-    simp only [consumePending, Bool.false_and, Bool.false_eq_true, if_false]
+    simp only [consumePending, second_any_false, Bool.or_false, Bool.false_and, Bool.false_eq_true, if_false]
     have : (permOf c'.oa (setA c'.blocks (plan c').started) && permOf c'.os (setS c'.blocks (plan c').started)) = true := by
       simp only [permOf, Bool.and_eq_true, List.isPerm_iff, hA, hS, hoa, hos]
       exact ⟨sp.permA, sp.permS⟩
